@@ -562,7 +562,7 @@ func checkC18(c *ctx) {
 		// the channel closed by another goroutine at an arbitrary moment (also between two writes)
 		trials := c.n(60, 250)
 		if c.proofBroken("tie_poll_discipline") {
-			trials = 8000
+			trials = 3000
 		}
 		for t := 0; t < trials; t++ {
 			asyncDelay = time.Duration(c.R.Intn(int(mergeTime)*5/4 + 1))
